@@ -168,6 +168,99 @@ fn fat_child(n: usize, stack: usize) {
     let _ = h.join();
 }
 
+/// A long chain destroyed on a small stack while other threads keep touching the count words of the nodes the
+/// cascade is about to reach (`Weak::clone`/`drop`, or `Weak::upgrade` + drop): every lost race inside the
+/// cascade must not cost additional stack.
+fn traffic_child(n: usize, stack: usize, upgrade: bool) {
+    use std::sync::atomic::AtomicBool;
+    static STOP: AtomicBool = AtomicBool::new(false);
+    let mut weaks: Vec<Weak<SNode>> = Vec::with_capacity(n);
+    let head = {
+        let g = circ::cs();
+        let mut head: Rc<SNode> = Rc::null();
+        for _ in 0..n {
+            let nd = snode();
+            nd.as_ref().unwrap().next[0].store(head, SeqCst, &g);
+            weaks.push(nd.downgrade());
+            head = nd;
+        }
+        head
+    };
+    // weaks[i] = the node destructed i-th
+    weaks.reverse();
+    let weaks = Arc::new(weaks);
+    churn(8);
+    let mut attackers = Vec::new();
+    for a in 0..3usize {
+        let w = weaks.clone();
+        attackers.push(std::thread::spawn(move || {
+            let mut touched = 0u64;
+            let mut last = usize::MAX;
+            while !STOP.load(SeqCst) {
+                let d = DROPS.load(Relaxed);
+                if upgrade {
+                    // an upgrade re-stamps its target, which makes the cascade wait a grace period there: one sweep
+                    // per observed position keeps the destruction going
+                    if d == last {
+                        // an idle thread would sit on whatever landed in its local bag: keep taking part in collection
+                        circ::cs().flush();
+                        std::thread::yield_now();
+                        continue;
+                    }
+                    last = d;
+                }
+                for j in (d + 1 + a)..(d + 48).min(w.len()) {
+                    if upgrade {
+                        drop(w[j].upgrade());
+                    } else {
+                        drop(w[j].clone());
+                    }
+                    touched += 1;
+                }
+                if upgrade {
+                    // hand over what this sweep retired (an idle thread would keep it in its local bag)
+                    circ::cs().flush();
+                }
+            }
+            touched
+        }));
+    }
+    let h = std::thread::Builder::new()
+        .stack_size(stack)
+        .spawn(move || {
+            drop(head);
+            let t0 = Instant::now();
+            let mut rounds = 0usize;
+            while DROPS.load(SeqCst) < n && t0.elapsed() < Duration::from_secs(100) {
+                churn(1);
+                rounds += 1;
+            }
+            if DROPS.load(SeqCst) < n {
+                // wall-clock cap: inconclusive, never a violation
+                println!("{}", J::obj().set("type", "c07child-timeout").to_string());
+            }
+            rounds
+        })
+        .expect("spawn");
+    let rounds = h.join();
+    STOP.store(true, SeqCst);
+    let mut touched = 0;
+    for a in attackers {
+        touched += a.join().unwrap_or(0);
+    }
+    let rounds = match rounds {
+        Ok(r) => r,
+        Err(_) => return,
+    };
+    // stragglers revived by the attackers are released now
+    let mut r = 0;
+    while DROPS.load(SeqCst) < n && r < 2000 {
+        churn(1);
+        r += 1;
+    }
+    println!("{}", J::obj().set("type", "c07child").set("n", n).set("drops", DROPS.load(SeqCst)).set("rounds", rounds).set("peak_stack", 0u64).set("touched", touched).to_string());
+}
+
 fn backlog_child(lists: usize, len: usize, stack: usize) {
     use std::sync::atomic::AtomicBool;
     static PINNED: AtomicBool = AtomicBool::new(false);
@@ -263,6 +356,9 @@ pub fn c07_child(shape: &str, n: usize, stack: usize) {
     }
     if shape == "wide-exit" {
         return wide_exit_child(n, stack);
+    }
+    if shape == "chain-weak-traffic" || shape == "chain-upgrade-traffic" {
+        return traffic_child(n, stack, shape == "chain-upgrade-traffic");
     }
     let shape = shape.to_string();
     let h = std::thread::Builder::new()
@@ -434,7 +530,7 @@ pub fn c07(thorough: bool, shard: u64, nshards: u64) -> ProcOut {
     } else {
         (vec![1 << 20, 2 << 20, 8 << 20], vec![64 << 10, 128 << 10, 256 << 10, 512 << 10])
     };
-    let mut cases: Vec<(&str, usize)> = vec![("chain", 2_000), ("chain", 100_000), ("tree", 65_535), ("comb", 100_000), ("caterpillar", 300_000), ("dag", 50_000), ("backlog", 720_000), ("fatchain", 20_000), ("wide-exit", 400_000)];
+    let mut cases: Vec<(&str, usize)> = vec![("chain", 2_000), ("chain", 100_000), ("tree", 65_535), ("comb", 100_000), ("caterpillar", 300_000), ("dag", 50_000), ("backlog", 720_000), ("fatchain", 20_000), ("wide-exit", 400_000), ("chain-weak-traffic", 400_000), ("chain-upgrade-traffic", 200_000)];
     if thorough {
         cases.push(("chain", 1_000_000));
         cases.push(("chain", 4_000_000));
@@ -465,7 +561,7 @@ pub fn c07(thorough: bool, shard: u64, nshards: u64) -> ProcOut {
             out.evaluations += 1;
             let key = format!("{}|{}|n={}|stack={}", b, shape, n, stack);
             out.distinct.insert(key.clone());
-            if timed_out {
+            if timed_out || so.contains("c07child-timeout") {
                 out.inconclusive += 1;
                 continue;
             }
@@ -556,9 +652,9 @@ struct TlsObj {
     created: std::cell::Cell<usize>,
 }
 
-pub const C20_CASES: [&str; 15] = [
+pub const C20_CASES: [&str; 19] = [
     "cs", "nested-cs", "new-drop", "drop-captured", "cell-ops", "upgrade", "flush", "reactivate", "reactivate_after", "chain-drop", "defer-many", "cs-then-new-in-guard",
-    "nested-reactivate", "body-nested-reactivate", "exit-with-backlog",
+    "nested-reactivate", "body-nested-reactivate", "exit-with-backlog", "guard-flush-then-retire-more", "guard-retire-100", "guard-store-100", "first-use-race",
 ];
 
 impl Drop for TlsObj {
@@ -672,12 +768,49 @@ impl Drop for TlsObj {
                     drop(r);
                 }
             }
-            13 | 14 => {
+            13 | 14 | 18 => {
                 for _ in 0..10 {
                     let r = tnode();
                     created += 1;
                     drop(r);
                 }
+            }
+            15 => {
+                // one guard: retire, flush (schedules a collection), retire more, leave
+                let g = circ::cs();
+                for _ in 0..5 {
+                    let r = tnode();
+                    created += 1;
+                    r.finalize(&g);
+                }
+                g.flush();
+                for _ in 0..5 {
+                    let r = tnode();
+                    created += 1;
+                    r.finalize(&g);
+                }
+                drop(g);
+            }
+            16 => {
+                // one guard, enough retirements through it to schedule a collection, and some more
+                let g = circ::cs();
+                for _ in 0..100 {
+                    let r = tnode();
+                    created += 1;
+                    r.finalize(&g);
+                }
+                drop(g);
+            }
+            17 => {
+                let g = circ::cs();
+                let c = AtomicRc::<TNode>::null();
+                for _ in 0..100 {
+                    let r = tnode();
+                    created += 1;
+                    c.store(r, SeqCst, &g);
+                }
+                c.store(Rc::null(), SeqCst, &g);
+                drop(g);
             }
             _ => {
                 let g = circ::cs();
@@ -706,7 +839,12 @@ thread_local! {
 pub fn c20_child(case: u32, order: u32, threads: usize, main_exit: bool) {
     let sh = Arc::new(Shared20 { cell: AtomicRc::null(), wcell: AtomicWeak::null() });
     let mut expected_extra = 0;
-    {
+    // "first-use-race": nothing in the process has used the library when the threads enter their first
+    // critical section together
+    let race = case == 18;
+    let threads = if race { threads.max(2) * 2 } else { threads };
+    static GATE: AtomicUsize = AtomicUsize::new(0);
+    if !race {
         let g = circ::cs();
         let n = tnode();
         expected_extra += 1;
@@ -714,9 +852,24 @@ pub fn c20_child(case: u32, order: u32, threads: usize, main_exit: bool) {
         sh.cell.store(n, SeqCst, &g);
     }
     let mut hs = Vec::new();
-    for _ in 0..threads {
+    for tix in 0..threads {
         let sh2 = sh.clone();
         hs.push(std::thread::spawn(move || {
+            if race {
+                GATE.fetch_add(1, SeqCst);
+                while GATE.load(SeqCst) < threads {
+                    std::hint::spin_loop();
+                }
+                // the first calls are spread over a few hundred nanoseconds (the spread varies with `order`)
+                for _ in 0..(tix * (4usize << order)) {
+                    std::hint::spin_loop();
+                }
+                let g = circ::cs();
+                let r = tnode();
+                CREATED.fetch_add(1, SeqCst);
+                r.finalize(&g);
+                drop(g);
+            }
             let mk = |sh: &Arc<Shared20>| {
                 let r = tnode();
                 CREATED.fetch_add(1, SeqCst);
